@@ -552,6 +552,31 @@ pub fn run(ctx: &Ctx) {
                 cases.push((buf, at));
             }
         }
+        // labels whose CONTENT has a meaning somewhere (presentation-format escapes, punycode,
+        // underscores, wildcards, spaces): on the wire they are bytes, decoded as they are
+        {
+            let mut contents: Vec<Vec<u8>> = crate::gen::dictionary_labels().into_iter().map(|s| s.as_bytes().to_vec()).collect();
+            let mut b3 = Vec::new();
+            crate::engine::for_each_string_upto(b"\\0129.a", 4, &mut b3, &mut |x| {
+                if !x.is_empty() {
+                    contents.push(x.to_vec());
+                }
+            });
+            for l in &contents {
+                if l.is_empty() || l.len() > 63 {
+                    continue;
+                }
+                let mut one = vec![l.len() as u8];
+                one.extend_from_slice(l);
+                let mut buf = one.clone();
+                buf.push(0);
+                cases.push((buf.clone(), 0));
+                // the same label reached through a pointer, behind another label
+                let at = buf.len();
+                buf.extend_from_slice(&[1, b'p', 0xc0, 0]);
+                cases.push((buf, at));
+            }
+        }
         // every amount 0..=257 of label bytes in place (long labels / one-byte labels), closed by
         // a pointer to a bare root byte, a pointer to a one-label name, or the root
         let mut sized_msgs: Vec<Vec<u8>> = Vec::new();
@@ -626,7 +651,7 @@ pub fn run(ctx: &Ctx) {
                 }
             }
         });
-        ctx.space(&format!("many-step names (decoded by hook): chains of every length 1..={} label-less backward pointers ending at a 1-label name and 1..=700 ending at 126- and 127-label names, 1..=200 hops each adding a label, 0..=130 inline labels closed by a pointer or the root, every pair of label lengths (1..=63, 0..=63) before a pointer, every amount 0..=257 of in-place label bytes (63-byte and one-byte labels) closed by a pointer to a bare root byte / a pointer to a one-label name / the root", max_chain), n_at, "complete");
+        ctx.space(&format!("many-step names (decoded by hook): chains of every length 1..={} label-less backward pointers ending at a 1-label name and 1..=700 ending at 126- and 127-label names, 1..=200 hops each adding a label, 0..=130 inline labels closed by a pointer or the root, every pair of label lengths (1..=63, 0..=63) before a pointer, labels whose content is a dictionary word or any string of length <= 4 over backslash, 0, 1, 2, 9, '.' and a (in place and through a pointer), every amount 0..=257 of in-place label bytes (63-byte and one-byte labels) closed by a pointer to a bare root byte / a pointer to a one-label name / the root", max_chain), n_at, "complete");
         let mut msgs = crate::gen::name_shape_messages(ctx.tier.pick(700usize, 2100usize));
         msgs.extend(sized_msgs);
         // names whose compression pointers lie beyond offset 65536
